@@ -48,7 +48,16 @@ def run_rule(res, facts, tier):
                 for v in x.get('vars', []):
                     if v.get('init') is not None:
                         names = {(c.get('n') or callee(c).split('::')[-1]) for c in calls(v['init'])}
-                        if 'getCachedCollator' in names:
+                        ini = strip_casts(v['init'])
+                        while isinstance(ini, dict) and ini.get('k') == 'Un' and ini.get('op') in ('*', '&'):
+                            ini = strip_casts(ini['e'])
+                        if isinstance(ini, dict) and ini.get('k') == 'Ref' and ini.get('d') == 'param':
+                            origin[v['id']] = 'param'          # another name for a collator the caller passed
+                        elif isinstance(ini, dict) and ini.get('k') == 'Ref' and ini.get('d') == 'local' and ini.get('id') in origin:
+                            origin[v['id']] = origin[ini['id']]
+                        elif isinstance(ini, dict) and ini.get('k') == 'Member' and (ini.get('obj') or {}).get('k') == 'This':
+                            origin[v['id']] = 'the member ' + ini['m']
+                        elif 'getCachedCollator' in names:
                             origin[v['id']] = 'the collator cache'
                         elif 'createCollator' in names:
                             origin[v['id']] = 'fresh'
